@@ -5,9 +5,11 @@
 //! enumerated exhaustively is the input space (loops x tasks x program x idle time before the
 //! submissions x gap before stop). For a correct runtime the outcome is the same under every
 //! schedule: each accepted task ran exactly once when stop() has returned Ok.
-//! (The loops get at least 30 ms to start: a stop() issued within the first instants after init can
-//! return before a loop thread has registered itself as started - observed once in 72 runs - and this
-//! scenario, which does not control schedules, cannot decide that race reproducibly.)
+//! ONE scheduling decision is controlled: through the pause point at the first instruction of a loop
+//! thread (`loop:thread-start`) the harness either lets the loop threads start at once or holds them
+//! there until the caller is inside `EventLoops::stop()` (the two orders of "loop thread registers
+//! itself as started" and "stop looks at the count of started loops"; the second order was first seen
+//! as a 1-in-72 flake of the uncontrolled runs).
 use crate::explore::{sweep, Budget};
 use crate::report::Report;
 use crate::runner::{ChildResult, Emitter, RunCfg};
@@ -26,13 +28,15 @@ pub struct Case {
     prog: usize,
     idle_ms: u64,
     gap_ms: u64,
+    /// hold every loop thread at its first instruction until stop() has been entered
+    hold: bool,
 }
 
 const PROGS: [&str; 3] = ["return", "yield-once", "delay-5ms"];
 
 impl Case {
     fn to_json(&self) -> Value {
-        json!({"event_loops": self.loops, "tasks": self.tasks, "program": PROGS[self.prog], "idle_before_submitting_ms": self.idle_ms, "gap_before_stop_ms": self.gap_ms})
+        json!({"event_loops": self.loops, "tasks": self.tasks, "program": PROGS[self.prog], "idle_before_submitting_ms": self.idle_ms, "gap_before_stop_ms": self.gap_ms, "loop_threads_held_at_their_first_instruction_until_stop_is_entered": self.hold})
     }
     fn from_json(v: &Value) -> Option<Case> {
         Some(Case {
@@ -41,14 +45,28 @@ impl Case {
             prog: PROGS.iter().position(|p| Some(*p) == v.get("program").and_then(Value::as_str))?,
             idle_ms: v.get("idle_before_submitting_ms")?.as_u64()?,
             gap_ms: v.get("gap_before_stop_ms")?.as_u64()?,
+            hold: v.get("loop_threads_held_at_their_first_instruction_until_stop_is_entered").and_then(Value::as_bool).unwrap_or(false),
         })
     }
 }
 
 static RUNS: [AtomicU32; 8] = [const { AtomicU32::new(0) }; 8];
+static HOLD: std::sync::atomic::AtomicBool = std::sync::atomic::AtomicBool::new(false);
+static HELD: AtomicU32 = AtomicU32::new(0);
+
+fn on_point(label: &'static str) {
+    if label == "loop:thread-start" && HOLD.load(Ordering::SeqCst) {
+        let _ = HELD.fetch_add(1, Ordering::SeqCst);
+        while HOLD.load(Ordering::SeqCst) {
+            std::thread::sleep(Duration::from_micros(200));
+        }
+    }
+}
 
 pub fn exec(c: &Case, em: &mut Emitter) {
     std::panic::set_hook(Box::new(|_| {}));
+    HOLD.store(c.hold, Ordering::SeqCst);
+    open_coroutine_core::verif::set_point_hook(Some(on_point));
     EventLoops::init(&Config::new(c.loops, 128 * 1024, 0, 2, 0, 0, 0, false));
     // the measured part begins when every loop thread exists (a stop() issued before a loop thread has
     // even registered itself as started returns at once: a start-up race this scenario, which does not
@@ -84,10 +102,24 @@ pub fn exec(c: &Case, em: &mut Emitter) {
         handles.push(h);
     }
     std::thread::sleep(Duration::from_millis(c.gap_ms));
+    let releaser = c.hold.then(|| {
+        // every loop thread stands at its first instruction; let them go once stop() is under way
+        let t0 = std::time::Instant::now();
+        while (HELD.load(Ordering::SeqCst) as usize) < c.loops && t0.elapsed() < Duration::from_secs(10) {
+            std::thread::sleep(Duration::from_millis(1));
+        }
+        std::thread::spawn(|| {
+            std::thread::sleep(Duration::from_millis(40));
+            HOLD.store(false, Ordering::SeqCst);
+        })
+    });
     let stop = EventLoops::stop(Duration::from_secs(5));
     // (give a runtime that wrongly reported success no credit for work done afterwards)
     let runs: Vec<u32> = (0..c.tasks).map(|i| RUNS[i].load(Ordering::SeqCst)).collect();
-    em.emit(json!({"t":"end","stop_ok": stop.is_ok(), "runs": runs, "accepted": accepted}));
+    em.emit(json!({"t":"end","stop_ok": stop.is_ok(), "runs": runs, "accepted": accepted, "held": HELD.load(Ordering::SeqCst)}));
+    if let Some(r) = releaser {
+        let _ = r.join();
+    }
     std::mem::forget(handles);
 }
 
@@ -112,12 +144,15 @@ pub fn judge(c: &Case, res: &ChildResult, rep: &mut Report) {
         return;
     }
     if e["stop_ok"] == true {
-        let class = if c.idle_ms > 50 { "submitted-to-loops-idle-for-120ms" } else { "submitted-to-loops-idle-for-50ms" };
+        let class = if c.hold { "loop-threads-not-yet-registered-as-started" } else if c.idle_ms > 50 { "submitted-to-loops-idle-for-120ms" } else { "submitted-to-loops-idle-for-50ms" };
         if let Some((i, _)) = runs.iter().enumerate().find(|(_, n)| **n == 0) {
-            rep.violation(&format!("loops.stop/accepted-tasks-ran-when-stop-succeeds/{class}"), format!("{}: EventLoops::stop() returned Ok but task {i}, accepted before the stop, never ran (runs per task {runs:?})", c.to_json()), replay());
+            rep.violation_for("C12", &format!("loops.stop/accepted-tasks-ran-when-stop-succeeds/{class}"), format!("{}: EventLoops::stop() returned Ok but task {i}, accepted before the stop, never ran (runs per task {runs:?})", c.to_json()), replay());
             return;
         }
         rep.witness("stops_that_succeeded_with_all_tasks_run");
+        if c.hold && e["held"].as_u64() == Some(c.loops as u64) {
+            rep.witness("stops_entered_before_any_loop_thread_had_run_its_first_instruction");
+        }
     } else {
         rep.witness("stops_that_timed_out");
     }
@@ -128,9 +163,11 @@ pub fn cases(tier: &str) -> Vec<Case> {
     for loops in [1usize, 2] {
         for tasks in if tier == "thorough" { vec![1usize, 2, 3, 4, 6] } else { vec![1usize, 2, 4] } {
             for prog in 0..PROGS.len() {
+                // held loop threads: the idle time has no meaning (nothing runs before stop is entered)
+                v.push(Case { loops, tasks, prog, idle_ms: 0, gap_ms: 0, hold: true });
                 for idle_ms in [50u64, 120] {
                     for gap_ms in [0u64, 3] {
-                        v.push(Case { loops, tasks, prog, idle_ms, gap_ms });
+                        v.push(Case { loops, tasks, prog, idle_ms, gap_ms, hold: false });
                     }
                 }
             }
@@ -141,9 +178,9 @@ pub fn cases(tier: &str) -> Vec<Case> {
 
 pub fn run(tier: &str, rep: &mut Report) {
     let cs = cases(tier);
-    rep.bounds = json!({"event_loops": [1, 2], "tasks": if tier == "thorough" { json!([1, 2, 3, 4, 6]) } else { json!([1, 2, 4]) }, "programs": PROGS, "idle_before_submitting_ms": [50, 120], "gap_before_stop_ms": [0, 3], "cases": cs.len(),
-        "schedule": "NOT controlled: the real loop threads run under the operating system's scheduler; only the inputs are enumerated"});
-    rep.require(&["stops_that_succeeded_with_all_tasks_run"]);
+    rep.bounds = json!({"event_loops": [1, 2], "tasks": if tier == "thorough" { json!([1, 2, 3, 4, 6]) } else { json!([1, 2, 4]) }, "programs": PROGS, "idle_before_submitting_ms": [50, 120], "gap_before_stop_ms": [0, 3], "loop_threads": ["start at once", "held at their first instruction until stop() is entered (released 40 ms later)"], "cases": cs.len(),
+        "schedule": "one decision controlled (loop thread's first instruction before / after stop() is entered); otherwise NOT controlled: the real loop threads run under the operating system's scheduler; only the inputs are enumerated"});
+    rep.require(&["stops_that_succeeded_with_all_tasks_run", "stops_entered_before_any_loop_thread_had_run_its_first_instruction"]);
     for c in cs.iter().step_by((cs.len() / 4).max(1)).take(4) {
         rep.sample(c.to_json());
     }
